@@ -200,6 +200,14 @@ type c08Recv struct {
 }
 
 func c08EncodeOne(res *vlib.Result, exprs []string, st c09State, pad bool, withTypes bool, private bool) {
+	c08EncodeNamed(res, nil, exprs, st, pad, withTypes, private)
+}
+
+// c08AttrNames: attribute names that resemble pieces of the wire layout (the
+// in-band secret marker, the type-name attributes) or are unusual.
+var c08AttrNames = []string{"ZKM", "ZKMode", "ZKM_", "ZKMZKM", "zkm", "ZK", "Z", "MyTypeX", "TargetTypes", "My", "_", "_a1", "A", strings.Repeat("LongName", 40)}
+
+func c08EncodeNamed(res *vlib.Result, attrNames []string, exprs []string, st c09State, pad bool, withTypes bool, private bool) {
 	ctx := context.Background()
 	res.Evals++
 	ad := classad.New()
@@ -212,6 +220,9 @@ func c08EncodeOne(res *vlib.Result, exprs []string, st c09State, pad bool, withT
 			return
 		}
 		n := fmt.Sprintf("Attr%d", i)
+		if i < len(attrNames) {
+			n = attrNames[i]
+		}
 		ad.InsertExpr(n, pe)
 		names = append(names, n)
 	}
@@ -390,7 +401,7 @@ func c08Extremes() []string {
 func C08Plan() *vlib.Plan {
 	p := &vlib.Plan{
 		Property: "C08", Level: "exploration",
-		Rule:   "E-ENUM. Decode side: every string of length <= L over the 17-symbol alphabet {0 1 9 - + . e E x p _ \" \\ a t T space} as the value text of one attribute, framed by the reference and read by the real GetClassAd; oracle = full parser (same structure, or same defined value) / independent old-style lone-string rule / must reject; plus ~3000 decorated numerals at and around 2^31, 2^32, 2^53, 2^63, 2^64, 2^127, 2^128, 10^17..10^22 and the float64 limits. Encode side: every expression of a bounded grammar (literals incl. integer/real extremes, strings with quotes/backslashes/controls/UTF-8, refs, unary, binary, ?:, strcat, lists, nested ads; depth <= D) in ads of 1-2 attributes, with/without type names, single- and multi-frame, 3 stream states, through GetClassAd / GetClassAdRaw+ParseOld / SkipClassAdRaw each followed by a sentinel. Non-trivial = text accepted by the parser (decode) / ad sent (encode).",
+		Rule:   "E-ENUM. Decode side: every string of length <= L over the 17-symbol alphabet {0 1 9 - + . e E x p _ \" \\ a t T space} as the value text of one attribute, framed by the reference and read by the real GetClassAd; oracle = full parser (same structure, or same defined value) / independent old-style lone-string rule / must reject; plus ~3000 decorated numerals at and around 2^31, 2^32, 2^53, 2^63, 2^64, 2^127, 2^128, 10^17..10^22 and the float64 limits. Encode side: every expression of a bounded grammar (literals incl. integer/real extremes, strings with quotes/backslashes/controls/UTF-8, refs, unary, binary, ?:, strcat, lists, nested ads; depth <= D) in ads of 1-2 attributes, with/without type names, single- and multi-frame, 3 stream states, through GetClassAd / GetClassAdRaw+ParseOld / SkipClassAdRaw each followed by a sentinel; plus 14 attribute names that resemble wire-layout pieces (ZKM, ZKMode, zkm, MyTypeX, ...) x 6 values through the same three receivers. Non-trivial = text accepted by the parser (decode) / ad sent (encode).",
 		Assume: []string{"reference = github.com/PelicanPlatform/classad ParseExpr (the 'full parser' of the statement)"},
 	}
 	p.Gen = func(tier string, yield func(vlib.Case)) {
@@ -447,6 +458,21 @@ func C08Plan() *vlib.Plan {
 			res.Sample = map[string]any{"texts": res.Evals}
 			return res
 		}})
+		// encode side: attribute names that look like wire-layout pieces, each with a few values
+		for st := stNoKey; st <= stKeyedClear; st++ {
+			st := st
+			yield(vlib.Case{ID: fmt.Sprintf("encode-names/%v", st), Run: func() *vlib.Result {
+				res := &vlib.Result{}
+				vals := []string{"3", `"ZKM"`, `"s"`, "true", "ZKM", "a + 1"}
+				for i, n := range c08AttrNames {
+					for j, v := range vals {
+						c08EncodeNamed(res, []string{n}, []string{v}, st, false, j%2 == 0, false)
+						c08EncodeNamed(res, []string{n, c08AttrNames[(i+1)%len(c08AttrNames)]}, []string{v, vals[(j+1)%len(vals)]}, st, false, j%2 == 1, i%3 == 0)
+					}
+				}
+				return res
+			}})
+		}
 		// encode side
 		exprs := c08Exprs(D, tier)
 		if len(exprs) > 6000 {
